@@ -59,6 +59,37 @@ class Obj:
         self.__dict__.update(kw)
 
 
+def h_tag_grouper(g):
+    """--read_group tag:TAG for every BAM tag type: the group id is the text of the tag value (NA without the tag), it is a member
+    of the group universe, and it survives the intermediate file (groups are written with write_string)"""
+    import io as _io
+    import src.serialization as ser
+    kind = ["absent", "string", "integer", "negative integer", "float"][g.choice("tag_type", 5)]
+    value = {"absent": None, "string": "cell_A", "integer": g.int("tag_value", 0, 255), "negative integer": -g.int("tag_magnitude", 1, 100), "float": 0.5}[kind]
+
+    class Al:
+        query_name = "r1"
+
+        def get_tag(self, tag):
+            if value is None:
+                raise KeyError(tag)
+            return value
+    gr = read_groups.AlignmentTagReadGrouper("HP")
+    r = call(g, gr.get_group_id, Al())
+    det = {"tag_type": kind, "returned": repr(r)[:60]}
+    g.check(isinstance(r, str), "the group id of a tagged read is a text label whatever the type of the BAM tag", detail=det)
+    g.check(any(x is r or (isinstance(x, str) and isinstance(r, str) and x == r) for x in gr.read_groups), "the label is a member of the group universe", detail=det)
+    if kind == "absent":
+        g.check(r == "NA", "reads without the tag are in NA")
+    elif kind == "string":
+        g.check(r == "cell_A", "string tags are taken verbatim")
+    if isinstance(r, str):
+        buf = _io.BytesIO()
+        call(g, ser.write_string, r, buf)
+        buf.seek(0)
+        g.check(call(g, ser.read_string, buf) == r, "the label survives the intermediate file")
+
+
 def h_aggregator(g):
     """the counters as the real ReadAssignmentAggregator builds them for an experiment with read groups: for every combination of
     --gene_quantification / --transcript_quantification and every assignment class of one read, the per-group gene and transcript
@@ -363,7 +394,8 @@ def instances(tier, seed):
     L = "src.long_read_counter:"
     F = [L + "AssignedFeatureCounter.__init__", L + "AssignedFeatureCounter.add_read_info", L + "AssignedFeatureCounter.dump",
          L + "AssignedFeatureCounter.dump_grouped", L + "AssignedFeatureCounter.format_header"]
-    out = [AGG]
+    out = [AGG, Instance("tag_grouper", h_tag_grouper, ["src.read_groups:AlignmentTagReadGrouper.get_group_id", "src.serialization:write_string"],
+                         "tag absent / string / integer (symbolic) / negative integer / float", weight=5)]
     # --read_group file_name: the merger's index must identify the file a record came from (shared with C12)
     from props import c12
     for n_, k_ in ([(2, 2), (3, 3)] if q else [(2, 2), (3, 2), (3, 3), (4, 3)]):
